@@ -4,6 +4,7 @@ import (
 	"fmt"
 	"regexp"
 	"strings"
+	"time"
 
 	"github.com/paulsonkoly/calc/combinator"
 	"github.com/paulsonkoly/calc/parser"
@@ -287,9 +288,49 @@ func init() {
 				return c06Front(s, "bigliteral")
 			}},
 			{Name: "noexec", Count: countFn(1500, 100000), Run: c06NoExec},
+			{Name: "evalnoexec", Count: countFn(150, 4000), Run: c06EvalNoExec},
 		},
-		Floors: []core.Floor{{Key: "accepted", Quick: 3000, Thor: 300000}, {Key: "rejected", Quick: 30000, Thor: 3000000}, {Key: "reports_displayed", Quick: 30000, Thor: 3000000}, {Key: "noexec_checked", Quick: 800, Thor: 50000}, {Key: "tag:outcome:", Quick: 3, Thor: 3}},
+		Floors: []core.Floor{{Key: "accepted", Quick: 3000, Thor: 300000}, {Key: "rejected", Quick: 30000, Thor: 3000000}, {Key: "reports_displayed", Quick: 30000, Thor: 3000000}, {Key: "noexec_checked", Quick: 800, Thor: 50000}, {Key: "eval_noexec_checked", Quick: 100, Thor: 2500}, {Key: "tag:outcome:", Quick: 3, Thor: 3}},
 	})
 	core.CaseSeconds["C06/nesting"] = 2
 	core.CaseSeconds["C06/bigliteral"] = 2
+}
+
+// c06EvalNoExec: the no-execution clause in -eval mode, on the real binary.
+func c06EvalNoExec(ctx *core.Ctx, idx int) core.Result {
+	r := core.CaseRng(ctx.Seed, "C06/evalnoexec", idx)
+	var res core.Result
+	bin := calcrun.CalcBinary()
+	if bin == "" {
+		return core.Result{Verdict: core.Inconclusive, Reason: "no calc binary (VERIF_CALC_BIN)"}
+	}
+	valid := []string{"write(\"LE\"+\"AK\")", "write(1+1)", "{\n write(\"LE\"+\"AK\")\n 2\n}", "for i <- fromto(0,2) write(\"LE\"+\"AK\")"}
+	bad := []string{")", "1 +", "(", "\"abc", "12££12", "[1, 2", "}", "a b", "1.2.3", "@", "x = ", "else 2"}
+	input := valid[r.Intn(len(valid))] + " " + bad[r.Intn(len(bad))]
+	if r.Bool() {
+		input = valid[r.Intn(len(valid))] + "\n" + bad[r.Intn(len(bad))]
+	}
+	res.Hash = core.HashString(input)
+	if _, perr, pan, hang, _, _ := calcrun.Parse(input); perr == nil || pan != nil || hang != "" {
+		return core.Result{Verdict: core.Dropped, Reason: "input turned out valid"}
+	}
+	p := calcrun.RunCalc(bin, []string{"-eval", input}, nil, "", 20*time.Second)
+	if p.TimedOut {
+		return core.Result{Verdict: core.Inconclusive, Reason: "watchdog"}
+	}
+	if p.Exit != 0 || strings.Contains(p.Stderr, "panic:") || strings.Contains(p.Stdout, "LEAK") || strings.Contains(p.Stdout, "2\n") && !strings.Contains(p.Stdout, "Parser") && !strings.Contains(p.Stdout, "Lexer") {
+		res.Verdict = core.Violated
+		res.Viol = &core.Violation{Monitor: "no-execution", Detail: fmt.Sprintf("-eval of an input with a syntax error: exit %d, stdout %q, stderr %q", p.Exit, trunc(p.Stdout, 300), trunc(p.Stderr, 200)), Input: input}
+		return res
+	}
+	if strings.Contains(p.Stdout, "LEAK") {
+		res.Verdict = core.Violated
+		res.Viol = &core.Violation{Monitor: "no-execution", Detail: fmt.Sprintf("-eval executed part of an input with a syntax error: stdout %q", trunc(p.Stdout, 300)), Input: input}
+		return res
+	}
+	res.Add("eval_noexec_checked", 1)
+	res.Verdict = core.Held
+	res.Nontrivial = true
+	res.Sample = map[string]any{"family": "evalnoexec", "input": input, "stdout": trunc(p.Stdout, 200)}
+	return res
 }
